@@ -2452,6 +2452,13 @@ func (r *stack) pop() (slice any, ok bool) {
 
 	var idx int
 
+	// the caller tested for emptiness before the lock
+	// was taken; another goroutine may have emptied the
+	// stack since, and slice zero (0) is not an element.
+	if r.ulen() == 0 {
+		return
+	}
+
 	if r.isFIFO() {
 		idx = 1
 		slice = (*r)[idx]
